@@ -214,13 +214,14 @@ Lemma apply_op_frame fl w o j :
   j < length w -> ~ touches o j ->
   nth_error (apply_op fl w o) j = nth_error w j /\ j < length (apply_op fl w o).
 Proof.
-  intros Hj Ht. destruct o as [a|a k d|a k|a d]; cbn [apply_op touches op_tree] in *.
+  intros Hj Ht. destruct o as [a|a k d|a k|a d|a k ents]; cbn [apply_op touches op_tree] in *.
   - destruct (deepcopy fl w a) eqn:E; auto.
     destruct (deepcopy_frame _ _ _ _ E) as (c & ->).
     rewrite nth_error_app1 by auto. rewrite app_length. split; auto. lia.
   - destruct (_ && _); auto. rewrite upd_tree_other, upd_tree_length; auto.
   - rewrite upd_tree_other, upd_tree_length; auto.
   - rewrite upd_tree_other, upd_tree_length; auto.
+  - destruct (is_some (get w a)); auto. rewrite upd_tree_other, upd_tree_length; auto.
 Qed.
 
 Lemma run_frame fl : forall ops w j,
